@@ -1158,3 +1158,181 @@ pub fn seq_suites(thorough: bool) -> Vec<SuiteId> {
     }
     v
 }
+
+// ------------------------------------------------------------------------------------------------
+// E2a-tlc: the labelled state graph computed by TLC from model/Session.tla, every edge replayed
+// ------------------------------------------------------------------------------------------------
+
+#[derive(Clone, Debug, Serialize, Deserialize, PartialEq, Eq)]
+pub struct TlcPos {
+    pub s_pos: u16,
+    pub s_dead: bool,
+    pub r_pos: u16,
+    pub r_dead: bool,
+}
+
+#[derive(Clone, Debug, Serialize, Deserialize)]
+pub struct TlcEdge {
+    pub from: TlcPos,
+    pub kind: String,
+    pub j: u16,
+    pub corr: String,
+    pub api: String,
+    pub res: String,
+    pub to: TlcPos,
+}
+
+#[derive(Clone, Debug, Serialize, Deserialize)]
+pub struct TlcCase {
+    pub suite: SuiteId,
+    pub w: u8,
+    pub base: u64,
+    pub edge: TlcEdge,
+}
+
+pub struct E2aTlc {
+    pub edges: Vec<TlcEdge>,
+    pub w: u8,
+    pub suites: Vec<SuiteId>,
+    pub tlc_stats: serde_json::Value,
+}
+
+pub fn load_tlc_edges(path: &std::path::Path) -> Result<Vec<TlcEdge>, String> {
+    let s = std::fs::read_to_string(path).map_err(|e| format!("cannot read {}: {}", path.display(), e))?;
+    s.lines().filter(|l| !l.trim().is_empty()).map(|l| serde_json::from_str(l).map_err(|e| format!("bad edge line: {}", e))).collect()
+}
+
+fn corr_of(s: &str) -> Option<Corr> {
+    CORRS.iter().copied().find(|c| format!("{:?}", c) == s)
+}
+
+impl Part for E2aTlc {
+    type Case = TlcCase;
+    fn name(&self) -> String {
+        "E2a-tlc-graph-edges".into()
+    }
+    fn rule(&self) -> String {
+        "model/Session.tla (an independent TLA+ statement of M(W)) is checked by TLC (invariants TypeOK, I1, I2, I3, I3b and the transition property I1t) over its complete reachable graph, which TLC dumps with action labels; EVERY distinct (position state, action) pair of that graph is replayed on the real contexts under each embedding: TLC's specified result and successor state, the Rust model's step function and the implementation (result kind, bytes via R1, concrete (seq, overflowed)) must all agree; the set of position states must equal the one stateright finds".into()
+    }
+    fn bound(&self, cfg: &Cfg) -> String {
+        format!("W = {}; {} graph edges x {} embeddings x {} suites", self.w, self.edges.len(), embeddings(self.w, cfg.tier.thorough()).len(), self.suites.len())
+    }
+    fn enumerate(&self, cfg: &Cfg) -> Vec<TlcCase> {
+        let mut v = vec![];
+        for &suite in &self.suites {
+            for base in embeddings(self.w, cfg.tier.thorough()) {
+                for e in &self.edges {
+                    let involves_dead = e.from.s_dead || e.from.r_dead || e.to.s_dead || e.to.r_dead;
+                    if !top_aligned(self.w, base) && involves_dead {
+                        continue;
+                    }
+                    v.push(TlcCase { suite, w: self.w, base, edge: e.clone() });
+                }
+            }
+        }
+        v
+    }
+    fn extra(&self, _cfg: &Cfg) -> (serde_json::Map<String, serde_json::Value>, Vec<String>) {
+        let mut m = serde_json::Map::new();
+        let mut errs = vec![];
+        m.insert("tlc".into(), self.tlc_stats.clone());
+        // the position states TLC reached = the position states stateright / the Rust BFS reach
+        let (_, states) = check_model(self.w, Focus::Receiver);
+        let mut mine: std::collections::BTreeSet<(u16, bool, u16, bool)> = Default::default();
+        for s in &states {
+            mine.insert((s.s_pos, s.s_dead, s.r_pos, s.r_dead));
+        }
+        let mut theirs: std::collections::BTreeSet<(u16, bool, u16, bool)> = Default::default();
+        for e in &self.edges {
+            theirs.insert((e.from.s_pos, e.from.s_dead, e.from.r_pos, e.from.r_dead));
+            theirs.insert((e.to.s_pos, e.to.s_dead, e.to.r_pos, e.to.r_dead));
+        }
+        m.insert("position_states_tlc".into(), serde_json::json!(theirs.len()));
+        m.insert("position_states_stateright".into(), serde_json::json!(mine.len()));
+        if mine != theirs {
+            errs.push(format!("TLC and stateright disagree on the reachable position states of M({}): {} vs {}", self.w, theirs.len(), mine.len()));
+        }
+        (m, errs)
+    }
+    fn run(&self, cfg: &Cfg, c: &TlcCase) -> CaseOut {
+        let mut out = CaseOut::new();
+        out.states = 1;
+        let e = &c.edge;
+        out.outcome = format!("{}/{}", e.kind, e.res);
+        let fx = match Fixture::new(c.suite, Mode::Base, cfg.seed) {
+            Ok(f) => f,
+            Err(x) => {
+                out.fail(x);
+                return out;
+            }
+        };
+        let m = M { w: c.w, focus: Focus::Receiver };
+        let emb = |p: u16| c.base.wrapping_add(p as u64);
+        let api = if e.api == "Alloc" { Api::Alloc } else { Api::InPlace };
+        let st = MState { s_pos: e.from.s_pos, s_dead: e.from.s_dead, r_pos: e.from.r_pos, r_dead: e.from.r_dead, ..m.init() };
+        let what = format!("TLC edge {:?} --{}({}, {}, {})--> {:?} [{}] base {:#x}", e.from, e.kind, e.j, e.corr, e.api, e.to, e.res, c.base);
+        let act = match e.kind.as_str() {
+            "Seal" => Act::Seal(api),
+            "Deliver" => match corr_of(&e.corr) {
+                Some(corr) => Act::Deliver { j: e.j, c: corr, api },
+                None => {
+                    out.fail(format!("{}: unknown corruption class", what));
+                    return out;
+                }
+            },
+            _ => {
+                out.fail(format!("{}: unknown action", what));
+                return out;
+            }
+        };
+        // 1. TLC vs the Rust model
+        let (nx, exp) = m.step(&st, &act);
+        let exp_name = match exp {
+            Expect::SealOk(_) => "SealOk",
+            Expect::SealLimit => "SealLimit",
+            Expect::OpenOk(_) => "OpenOk",
+            Expect::OpenErr => "OpenErr",
+            Expect::OpenLimit => "OpenLimit",
+            Expect::Export => "Export",
+        };
+        out.transitions += 1;
+        if exp_name != e.res || (nx.s_pos, nx.s_dead, nx.r_pos, nx.r_dead) != (e.to.s_pos, e.to.s_dead, e.to.r_pos, e.to.r_dead) {
+            out.fail(format!("{}: the TLA+ model and the Rust model disagree (Rust: {} -> s={} {} r={} {}) - machinery", what, exp_name, nx.s_pos, nx.s_dead, nx.r_pos, nx.r_dead));
+            return out;
+        }
+        // 2. TLC vs the implementation
+        match act {
+            Act::Seal(api) => {
+                let s_pos = if st.s_dead { None } else { Some(emb(st.s_pos)) };
+                match sender_at(&fx, s_pos) {
+                    Ok(mut s) => {
+                        run_seal(&mut out, &fx, s.as_mut(), s_pos, api, &what);
+                        let want = if e.to.s_dead { (u64::MAX, true) } else { (emb(e.to.s_pos), false) };
+                        if s.seq_state() != want {
+                            out.fail(format!("{}: concrete post-state {:?} does not correspond to TLC's successor {:?}", what, s.seq_state(), want));
+                        }
+                    }
+                    Err(x) => out.fail(format!("{}: {}", what, x)),
+                }
+            }
+            Act::Deliver { j, c: corr, api } => {
+                let r_pos = if st.r_dead { None } else { Some(emb(st.r_pos)) };
+                match receiver_at(&fx, r_pos) {
+                    Ok(mut r) => {
+                        let sealed = m.sealed(&st);
+                        let other_j = if sealed <= 1 { (j + 1) % (m.last() + 1) } else if j + 1 < sealed { j + 1 } else { j - 1 };
+                        let d = deliver_bytes(&fx, emb(j), emb(other_j), corr, api);
+                        run_delivery(&mut out, &fx, r.as_mut(), r_pos, &d, api, Some(exp), &what);
+                        let want = if e.to.r_dead { (u64::MAX, true) } else { (emb(e.to.r_pos), false) };
+                        if r.seq_state() != want {
+                            out.fail(format!("{}: concrete post-state {:?} does not correspond to TLC's successor {:?}", what, r.seq_state(), want));
+                        }
+                    }
+                    Err(x) => out.fail(format!("{}: {}", what, x)),
+                }
+            }
+            _ => {}
+        }
+        out
+    }
+}
